@@ -30,7 +30,7 @@ func (c c19case) witness() map[string]any {
 
 // c19judge checks one delta against the statement of C19. ops were produced by
 // the real engine for (base signature sig, target).
-func c19judge(r *vk.Run, e *rsync.Engine, c c19case, sig *rsync.Signature, ops []*rsync.Operation) {
+func c19judge(r *vk.Run, col *collector, e *rsync.Engine, c c19case, sig *rsync.Signature, ops []*rsync.Operation) {
 	fail := func(rule, what string) {
 		w := c.witness()
 		w["operations"] = opsString(ops)
@@ -40,7 +40,7 @@ func c19judge(r *vk.Run, e *rsync.Engine, c c19case, sig *rsync.Signature, ops [
 		fsig := fresh.BytesSignature(c.Base, c.BlockSize)
 		fops := fresh.DeltifyBytes(c.Target, fsig, c.Max)
 		w["fresh_engine_operations"] = opsString(fops)
-		r.Violation(map[string]string{"rule": rule, "route": c.Route}, what, w)
+		col.add(map[string]string{"rule": rule, "route": c.Route}, len(c.Base)+len(c.Target), fmt.Sprintf("%s|%s|%d|%d", c.Base, c.Target, c.BlockSize, c.Max), what, w)
 	}
 	if err := sig.EnsureValid(); err != nil {
 		fail("signature-invalid", "signature produced by the engine fails EnsureValid: "+err.Error())
@@ -89,6 +89,7 @@ func c19() {
 	maxes := []uint64{1, 2, 3, 5, 0}
 	r.Note("bounded_space", fmt.Sprintf("%d strings over {a,b} up to length %d as base and as target, block sizes 1..len(base)+1 and 0 (automatic), maximum data sizes {1,2,3,5,default}", len(strs), maxLen))
 
+	col := newCollector()
 	var shapeMu sync.Mutex
 	shapes := map[string]int{}
 	var sampled int
@@ -116,7 +117,7 @@ func c19() {
 							c := c19case{Base: base, Target: target, BlockSize: bs, Max: max, Route: "bytes"}
 							r.Guard(c, func() {
 								ops := e.DeltifyBytes(target, sig, max)
-								c19judge(r, e, c, sig, ops)
+								c19judge(r, col, e, c, sig, ops)
 								evals++
 								blocks := 0
 								for _, o := range ops {
@@ -151,6 +152,7 @@ func c19() {
 		}(w)
 	}
 	wg.Wait()
+	col.flush(r)
 	var withBlocks int64
 	for k, v := range shapes {
 		r.Distinct("exh|" + k)
@@ -161,13 +163,14 @@ func c19() {
 	// Streaming route: a plain io.Reader with short reads as target (forces the
 	// engine's internal bufio wrapper), the signature computed from a
 	// non-seekable short-reading base, and Patch applied operation by operation.
-	c19stream(r)
+	c19stream(r, col)
+	col.flush(r)
 
 	r.Assume("signatures are produced by the same engine family in-process (the package documents that unvalidated foreign signatures are undefined behaviour)")
 	r.Finish("every (base, target) over {a,b} up to the tier's length x every block size 1..len+1 and automatic x five maximum data sizes through DeltifyBytes/PatchBytes, plus seeded random inputs up to 4 MiB with random splices through the streaming Deltify/Signature/Patch with short-reading plain readers; non-trivial = the delta contains at least one block match; distinct = distinct (operation-kind sequence, short-last-block?, maximum) shapes in the exhaustive part and distinct (size class, edit count, block size, shape class) in the random part", 40)
 }
 
-func c19stream(r *vk.Run) {
+func c19stream(r *vk.Run, col *collector) {
 	n := r.Pick(96, 1600)
 	var wg sync.WaitGroup
 	var sampleOnce sync.Once
@@ -224,7 +227,7 @@ func c19stream(r *vk.Run) {
 						r.Violation(map[string]string{"rule": "deltify-error", "route": "stream"}, "Deltify failed although neither the reader nor the transmitter failed: "+err.Error(), c.witness())
 						return
 					}
-					c19judge(r, e, c, sig, ops)
+					c19judge(r, col, e, c, sig, ops)
 					// Streaming Patch, operation by operation, into a writer.
 					var out bytes.Buffer
 					rd := bytes.NewReader(base)
